@@ -37,6 +37,7 @@ type sshSrv struct {
 	UsersSeen    []string
 	Sessions     []string // "shell" | "subsystem:netconf" | "exec:..."
 	PtyReq       int
+	Live         int32 // SSH connections that are up (the client has not closed its end)
 	conns        []net.Conn
 	stalled      int32 // when set, the server stops reading from its connections (a hung / black-holed peer)
 }
@@ -155,6 +156,9 @@ func (s *sshSrv) serve(c net.Conn, sc *ssh.ServerConfig) {
 	}
 
 	defer conn.Close()
+
+	atomic.AddInt32(&s.Live, 1)
+	defer atomic.AddInt32(&s.Live, -1)
 
 	go ssh.DiscardRequests(reqs)
 
